@@ -2,7 +2,7 @@
 ContextVar token discipline, base code iff nothing is active."""
 import ast
 
-from ..astq import compare_normal, conds, expand, facts_of, is_name, is_self_attr, kwarg, parse_fixture, returns_of
+from ..astq import compare_normal, conds, expand, facts_of, is_name, returns_with_conds, is_self_attr, kwarg, parse_fixture, returns_of
 from ..callgraph import CallGraph
 from ..cfg import CFG
 from ..core import AnalysisError, norm, walk_local, FuncInfo
@@ -263,15 +263,28 @@ def run(repo, chk):
     # ---- R05.4
     get = repo.func("transform.StackedTransforms.get")
     fget = facts_of(get)
-    rets = returns_of(get.node)
     ok, why = False, "shape not recognised"
-    if len(rets) == 1 and isinstance(rets[0].value, ast.Call) and norm(rets[0].value.func) == "self.tset.transform_for" and len(rets[0].value.args) == 1 and isinstance(rets[0].value.args[0], ast.Name):
-        var = rets[0].value.args[0].id
-        defs = [(t, c) for t, c, n in fget.items if t.startswith(f"{var} = ") and not (isinstance(n, ast.Assign) and isinstance(n.value, ast.IfExp))]
-        none_c = [c for t, c in defs if t == f"{var} = None"]
-        live_c = [c for t, c in defs if t == f"{var} = [cap for cap, count in self.captures.items() if count > 0]"]
-        ok = len(defs) == 2 and len(none_c) == 1 and len(live_c) == 1 and set(none_c[0]) == {"self.instrument_count == 0"} and set(live_c[0]) == {"self.instrument_count != 0"}
-        why = f"definitions of the key: {defs}"
+    # every result is self.tset.transform_for(<key>); the cases of <key> with their conditions, whether the key is named first or not
+    cases = []
+    shape_ok = True
+    for cs, v, r in returns_with_conds(get.node):
+        if not (isinstance(v, ast.Call) and norm(v.func) == "self.tset.transform_for" and len(v.args) == 1 and not v.keywords):
+            shape_ok = False
+            continue
+        a0 = v.args[0]
+        if isinstance(a0, ast.Name):
+            defs = [(t[len(a0.id) + 3:], set(c)) for t, c, n in fget.items if t.startswith(f"{a0.id} = ") and not (isinstance(n, ast.Assign) and isinstance(n.value, ast.IfExp))]
+            cases += [(txt, c | set(cs)) for txt, c in defs]
+        elif isinstance(a0, ast.IfExp):
+            from ..astq import literals
+            cases += [(norm(a0.body), set(cs) | set(literals(a0.test, True))), (norm(a0.orelse), set(cs) | set(literals(a0.test, False)))]
+        else:
+            cases.append((norm(a0), set(cs)))
+    if shape_ok and cases:
+        none_c = [c for t, c in cases if t == "None"]
+        live_c = [c for t, c in cases if t == "[cap for cap, count in self.captures.items() if count > 0]"]
+        ok = len(cases) == 2 and len(none_c) == 1 and len(live_c) == 1 and none_c[0] == {"self.instrument_count == 0"} and live_c[0] == {"self.instrument_count != 0"}
+        why = f"cases of the key: {[(t, sorted(c)) for t, c in cases]}"
     chk.ob("R05.4", "transform.StackedTransforms.get:none-iff-count-zero", ok, get.where, "variant key is None exactly when no probe is active: " + why)
     sb = repo.func("transform.TransformSet._set_base")
     chk.ob("R05.4", "transform.TransformSet._set_base:base-under-None", facts_of(sb).has(f"self._register(None, {sb.node.args.args[1].arg})", exactly=[]), sb.where,
